@@ -252,7 +252,7 @@ is_pd = Fn(U + 'is_positive_definite', ret='r', level='L1', valid=SQM, panics={1
            loops={1: {'invariant': ['n * n == m@.len()', 'm@.len() <= 0x7fff_ffff', 'sym_eps(m@, n as int)', 'C01.is_pd.diag:: forall|q: int| 0 <= q < i ==> rv(#[trigger] at2(m@, n as int, q, q)) > 0real'],
                       'body_start': 'lemma_idx(i as int, i as int, n as int, n as int);'}},
            hints=[('if !is_symmetric(m)', 'before', 'proof { if exists|k: int| 0 <= k && #[trigger] (k * k) == m@.len() { let k0 = choose|k: int| 0 <= k && #[trigger] (k * k) == m@.len(); lemma_sq_unique(k0, m@.len() as int); } }'),
-                  ('for i in 0..n', 'before', 'proof { lemma_sq_unique(n as int, m@.len() as int); }'),
+                  ('let n = ', 'after', 'proof { lemma_sq_unique(n as int, m@.len() as int); }'),
                   ('if m[i * n + i] <= 0. { return false; }', 'replace', 'if m[i * n + i] <= 0. { proof { lemma_sq_unique(n as int, m@.len() as int); assert(!diag_pos(m@, n as int)) by { assert(!(rv(at2(m@, n as int, i as int, i as int)) > 0real)); } } return false; }'),
                   ('\n            true\n', 'replace', '\n proof { lemma_sq_unique(n as int, m@.len() as int); }\n true\n')])
 
